@@ -932,8 +932,7 @@ def rule_issorted_provenance(ctx, rid='R11'):
         if 'issorted' not in ast.unparse(fi.node) and not any(k in ast.unparse(fi.node) for k in ('.loc(', 'locate_')):
             continue
         try:
-            ev = Evaluator(P, fi, mode='join', max_paths=100000)
-            ev.run()
+            ev = run(ctx, fi, mode='join', max_paths=100000)          # (renamed parameters of private functions are read under their old names)
         except AnalysisError:
             continue
         seen = set()
